@@ -728,6 +728,8 @@ impl OrdSpecImpl for Version { open spec fn obeys_cmp_spec() -> bool { true } op
         g.emit(mod, head + '    {\n        ' + entry + 'let mut input = text;' + rest + '\n}\n')
     g.unit('Version::parse_str', u_version_parse)
     g.emit('m_vprops', P('vprops.rs'))
+    g.emit('m_vprops', P('vcomplete.rs'))
+    g.emit('m_vprops', P('vsound.rs'))
 
     g.shape = source_shape(g, LIB, RNG)
 
